@@ -452,7 +452,7 @@ pub fn run(ctx: &mut Ctx) {
     }
     let _ = ROOT.set(ctx.root.clone());
     ctx.replay_known_and_regressions(&replay);
-    let n = ctx.tier.pick(10_000, 300_000);
+    let n = ctx.tier.pick(60_000, 1_000_000);
     ctx.run_prop("mutated", n, || crate::gen::tape(1500).prop_map(gen_case), judge);
     let g = grid();
     ctx.run_cases("grid", &g, judge);
